@@ -351,6 +351,22 @@ def finish(pid, tier, seed, res, kinds_now, level_claimed, assumptions, bounded_
     if mod is not None:
         for t in getattr(mod, "TRUSTED", []):
             trusted.add(t)
+    # the assumptions of every contract module that contributes a function under contract or a callee contract
+    import sys as _sys
+    used_modules = set()
+    for cx in res.cxs:
+        c_ = getattr(cx, "c", None)
+        if c_ is not None and getattr(c_, "module", None):
+            used_modules.add(c_.module)
+        for nm in getattr(cx, "used_contracts", []):
+            cc = api.BY_NAME.get(nm) or next((x for x in api.REGISTRY.values() if x.name == nm), None)
+            if cc is not None and getattr(cc, "module", None):
+                used_modules.add(cc.module)
+    for mn in sorted(used_modules):
+        m_ = _sys.modules.get(mn)
+        tr = getattr(m_, "TRUSTED", []) if m_ is not None else []
+        for t in (tr.values() if isinstance(tr, dict) else tr):
+            trusted.add(t)
     common = mods.get("common")
     for t in getattr(common, "TRUSTED", {}).values():
         trusted.add(t)
